@@ -159,7 +159,20 @@ def obs_reframe(case, block):
     rs = [l for l in block if l.startswith("r ")]
     adec = [(" ".join(rs[k].split(" ")[1:3]) if rs[k].startswith("r err") else "ok")
             for k in range(min(len(ops), len(rs))) if ops[k][0] in ("wa", "ea")]
-    return (adec, out)
+    # only the stored audio sample bytes matter here (the second track, when it has samples)
+    return (adec, [t for t in out[1:] if t])
+
+
+def obs_meta(case, block):
+    """what C18 talks about: the udta subtree and the language field of every mdhd"""
+    if case.kind != "mux":
+        return block
+    r = mp4.root(sink_of(block))
+    if r is None:
+        return ("unparsable", hashlib.sha1(sink_of(block)).hexdigest())
+    udta = [k.payload.hex() for k in r.find(b"moov", b"udta")]
+    langs = [k.payload[20:22].hex() for k in r.find(b"moov", b"trak", b"mdia", b"mdhd")]
+    return (udta, langs)
 
 
 def obs_none(case, block):
@@ -238,6 +251,24 @@ def obs_classes(case, block):
 
 def obs_results(case, block):
     return [l for l in block if not l.startswith("sink ")] + [len(sink_of(block))]
+
+
+def obs_accounting(case, block):
+    """what C06 talks about: the decisions, whether anything is in the sink after each call, the
+    frame counts and duration of the statistics, and whether the reported byte count is the
+    delivered one (not the absolute byte counts)"""
+    out = []
+    final = len(sink_of(block))
+    for l in block:
+        w = l.split(" ")
+        if w[0] == "r" and w[1] == "stats":
+            out.append(("stats", w[2], w[3], w[4]))
+            out.append(("bytes_match", int(w[5], 16) == final))
+        elif w[0] == "r":
+            out.append(" ".join(w[1:3]) if w[1] == "err" else w[1])
+        elif w[0] == "s":
+            out.append(("sink_empty", w[1] == "0"))
+    return out
 
 
 def obs_decisions(case, block):
@@ -336,6 +367,8 @@ class Engine:
         cases = self.corpus()
         for fam, q, t in self.P["fams"]:
             n = q if self.tier == "quick" else t
+            if n <= 0:
+                continue
             fn = getattr(F, fam)
             cases += fn(self.rng.fork(fam), n, "%s_%s_" % (self.pid, fam))
         return cases
@@ -406,7 +439,14 @@ class Engine:
             if m != i:
                 self.corr["mismatches"] += 1
                 try:
-                    touch = obs(c, m or []) != obs(c, i or [])
+                    if P.get("relative") and c.kind == "mux" and obs_decisions(c, m or []) != obs_decisions(c, i or []):
+                        # the accept/reject decisions differ: that is C04's (and C05/C06's) business; a
+                        # file property is relative to the accepted history, which the direct predicate
+                        # takes from the implementation's own results
+                        touch = False
+                        self.corr["decision_diffs"] = self.corr.get("decision_diffs", 0) + 1
+                    else:
+                        touch = obs(c, m or []) != obs(c, i or [])
                 except Exception as e:
                     touch = True
                 if touch:
@@ -1113,7 +1153,7 @@ PROPS.update({
     "C04": dict(fams=[("fam_contract", 300, 20000), ("fam_mux_basic", 150, 3000), ("fam_reject_matrix", 200, 4000), ("fam_adts_lengths", 60, 1500)], checks=["C04"], obs=obs_decisions,
                 components=["K7", "K2", "K3", "K4", "K5", "K6"], nontrivial=nt_has_err),
     "C06": dict(fams=[("fam_mux_basic", 200, 4000), ("fam_mux_av", 80, 2000), ("fam_sink", 60, 1000), ("fam_reject_matrix", 100, 2000)], checks=["C06"],
-                obs=obs_results, components=["K7"], nontrivial=lambda c, b: first_ok_fin(c, b) is not None),
+                obs=obs_accounting, components=["K7"], nontrivial=lambda c, b: first_ok_fin(c, b) is not None),
     "C07": dict(fams=[("fam_mux_clean", 200, 4000), ("fam_mux_av", 100, 2000)], checks=["C07"],
                 obs=obs_boxes(b"stsd"), components=["K4", "K5", "K6", "K7", "K8"], nontrivial=nt_finished),
     "C08": dict(fams=[("fam_mux_av", 80, 1500), ("fam_mux_clean", 80, 1500), ("fam_mux_basic", 40, 800)], checks=[],
@@ -1136,7 +1176,7 @@ PROPS.update({
     "C17": dict(fams=[("fam_mux_basic", 120, 1500), ("fam_mux_av", 60, 800), ("fam_frag", 60, 800)], checks=[], extra=extra_C17,
                 obs=obs_none, components=["K7", "K8"], nontrivial=lambda c, b: True, no_shrink=True),
     "C18": dict(fams=[("fam_mux_basic", 200, 4000), ("fam_mux_clean", 100, 2000)], checks=["C18"], extra=extra_C18,
-                obs=obs_boxes(b"udta", b"mdhd"), components=["K7"], nontrivial=nt_finished),
+                obs=obs_meta, components=["K7"], nontrivial=nt_finished, relative=True),
     "C19": dict(fams=[("fam_mux_basic", 150, 3000), ("fam_mux_av", 100, 2000), ("fam_frag", 80, 1500)], checks=["C19"],
                 extra=extra_C19, obs=obs_boxes(b"mvhd", b"tkhd", b"mdhd", b"hdlr", b"vmhd", b"smhd", b"dref", b"stsd", b"trex"),
                 components=["K7", "K8"], nontrivial=lambda c, b: True),
@@ -1673,3 +1713,14 @@ PROPS["C07"]["fams"] = [("fam_mux_clean", 200, 4000), ("fam_mux_av", 100, 2000),
 PROPS["C07"]["extra"] = extra_C07
 PROPS["C04"]["fams"] = PROPS["C04"]["fams"] + [("fam_av1_syntax", 40, 1000)]
 PROPS["C12"]["fams"] = PROPS["C12"]["fams"] + [("fam_av1_syntax", 60, 2000)]
+
+PROPS["C14"]["fams"] = PROPS["C14"]["fams"] + [("fam_exh_annexb", 0, 100000)]
+PROPS["C12"]["fams"] = PROPS["C12"]["fams"] + [("fam_exh_annexb", 0, 20000), ("fam_exh_frag", 0, 10000)]
+PROPS["C10"]["fams"] = PROPS["C10"]["fams"] + [("fam_exh_frag", 0, 50000)]
+PROPS["C11"]["fams"] = PROPS["C11"]["fams"] + [("fam_exh_frag", 0, 10000)]
+PROPS["C04"]["fams"] = PROPS["C04"]["fams"] + [("fam_exh_contract", 0, 50000)]
+PROPS["C05"]["fams"] = PROPS["C05"]["fams"] + [("fam_exh_contract", 0, 50000)]
+
+for _p in ("C01", "C02", "C03", "C07", "C09", "C15", "C16", "C19"):
+    PROPS[_p]["relative"] = True
+PROPS["C09"]["fams"] = PROPS["C09"]["fams"] + [("fam_reject_matrix", 150, 3000)]
